@@ -16,6 +16,12 @@ Theorem C01_refresh_resolves_files : forall files n,
   sorted (loaded files) -> unique_names files -> get_device (refresh_files files) n = resolve_spec (loaded files) n.
 Proof. exact refresh_resolves. Qed.
 Print Assumptions C01_refresh_resolves_files.
+(* every sequence of directory changes and refreshes: after a refresh, resolution is the rule on the current contents *)
+Theorem C01_history_resolves : forall ops st n,
+  let st' := fold_left cstep (ops ++ [ORefresh]) st in
+  unique_names (scan (fst st')) -> get_device (snd st') n = resolve_spec (loaded (scan (fst st'))) n.
+Proof. exact history_resolves. Qed.
+Print Assumptions C01_history_resolves.
 Theorem C01_scan_sorted : forall fs, sorted (loaded (scan fs)).
 Proof. exact scan_sorted. Qed.
 Print Assumptions C01_scan_sorted.
